@@ -10,7 +10,9 @@ R2 termination shape: every call-graph cycle among reachable workspace functions
 (strictly shrinking length, or structural descent into a child collection); no `loop`/`while` and
 no unbounded iterator source in reachable code.  R3 the pom grammars cannot spin: no nullable
 operand under an unbounded repeat, no list with nullable item and separator.
-Not decided: stack depth, the polynomial time bound, NaN-freedom of coordinates, panics inside
+R5 NaN hygiene: values of the workspace functions that can return NaN for finite arguments never reach a
+function from which the total order on coordinates (util::ord, whose NaN arm panics) is reachable, nor a
+stored point or fragment.  Not decided: stack depth, the polynomial time bound, panics inside
 dependencies (parry2d, nalgebra, pom, sauron, unicode-width), out-of-memory."""
 import itertools
 import re
@@ -106,6 +108,7 @@ def run(run):
     ctx.polygon_literals()
     r2(run, reach)
     r3(run, g, gfile)
+    r5(run, reach, only_via_static)
     run.assume("dependencies do not panic on the values svgbob hands them; coordinates are finite")
     run.assume("stack depth and the polynomial time bound are not decided")
 
@@ -501,6 +504,155 @@ class Ctx:
             run.bad("C01.R1", "polygon-constructor/%s" % short(extra[0]), where(prog.bodies[extra[0]]), "Polygon::new is also called from %s: emptiness of points is no longer a property of the table literals" % [short(x) for x in extra])
 
 
+NAN_CALL = re.compile(r"f(32|64)>?::(sqrt|asin|acos|ln|log|log2|log10|powf|acosh|atanh)$")
+GEOMETRIC = re.compile(r"svgbob::(point::Point|buffer::fragment_buffer::fragment::\w+::(Line|Arc|Circle|Rect|Polygon|MarkerLine|Text))$")
+
+
+def r5(run, reach, only_via_static):
+    """R5 NaN hygiene.  The reviewed site `util::ord` (total order on coordinates, NaN arm = unreachable!)
+    rests on "coordinates are never NaN".  Structural part decided here: the workspace functions that can
+    return NaN for finite arguments (a sqrt/asin/acos/ln/powf of a computed value, a float division by a
+    computed value) are found on every run; a value derived from one of them must not be handed to a function
+    from which util::ord is reachable, nor stored into a point or fragment."""
+    from ..fold import Folder, Unfoldable
+    prog = run.prog
+    folder = Folder(prog)
+    ordfn = [p for p in prog.bodies if p.endswith("util::ord")]
+    if not ordfn:
+        run.missing("C01.R5", "util::ord")
+        return
+    lib = sorted(p for p in reach if p in prog.bodies and prog.bodies[p].get("crate") == "svgbob" and p not in only_via_static)
+
+    def const_nonzero(ex, o):
+        c = op_const(o)
+        if c is not None:
+            v = c.get("float", c.get("int"))
+            try:
+                return v is not None and float(v) != 0.0
+            except (TypeError, ValueError):
+                return False
+        try:
+            v = folder.eval(strip(ex.operand(o)), ())
+            return v != 0
+        except (Unfoldable, Exception):
+            return False
+
+    def is_float(b, o):
+        pl = op_place(o)
+        if pl is not None and not pl["p"]:
+            return b["locals"][pl["l"]]["ty"] in ("f32", "f64")
+        c = op_const(o)
+        return bool(c and "float" in c)
+
+    base = {}
+    for p in lib:
+        b = prog.bodies[p]
+        ex = None
+        for bid, t in prog.calls(p):
+            n = Program.callee_name(t)
+            m = NAN_CALL.search(n)
+            if not m:
+                continue
+            ex = ex or Expr(prog, p)
+            fn = m.group(2)
+            if fn == "powf":
+                e1 = strip(ex.operand(t["args"][1]))
+                if e1[0] == "const" and float(e1[2]) == int(float(e1[2])):
+                    continue  # integral exponent: finite for finite base
+            try:
+                v = folder.eval(strip(ex.operand(t["args"][0])), ())
+                if v >= 0:
+                    continue  # constant, non-negative argument
+            except (Unfoldable, Exception):
+                pass
+            base.setdefault(p, "%s of a computed value at %s" % (fn, where(t)))
+        for blk in b["blocks"]:
+            if blk["cleanup"]:
+                continue
+            for st in blk["stmts"]:
+                rv = st.get("rv") or {}
+                if rv.get("k") == "bin" and rv["op"] in ("Div", "Rem") and (is_float(b, rv["ops"][0]) or is_float(b, rv["ops"][1])):
+                    ex = ex or Expr(prog, p)
+                    if not const_nonzero(ex, rv["ops"][1]):
+                        base.setdefault(p, "float %s by a computed value at %s" % (rv["op"].lower(), where(st)))
+    # closure under "returns a value derived from"
+    nanf = dict(base)
+    rets_of = {}
+    changed = True
+    while changed:
+        changed = False
+        for p in lib:
+            if p in nanf:
+                continue
+            rty = prog.bodies[p]["locals"][0]["ty"]
+            if not (rty in ("f32", "f64") or GEOMETRIC.search(rty) or re.search(r"\b(f32|f64|Point)\b", rty)):
+                continue  # a bool or an integer derived from a NaN is an ordinary value
+            if p not in rets_of:
+                try:
+                    rets_of[p] = Expr(prog, p).returns()
+                except Exception:
+                    rets_of[p] = []
+            for r in rets_of[p]:
+                hit = []
+                mentions(r, lambda z: z[0] == "call" and z[1] in nanf and hit.append(z[1]) and False)
+                if hit:
+                    nanf[p] = "returns a value derived from %s" % short(hit[0])
+                    changed = True
+                    break
+    run.record("nan_capable_functions", {short(k): v for k, v in sorted(nanf.items())})
+    run.floor("C01.R5", "nan_capable_base", len(base), 2)
+    # functions from which util::ord is reachable (reverse closure)
+    E = prog.edges()
+    rev = {}
+    for a, bs in E.items():
+        for c in bs:
+            rev.setdefault(c, set()).add(a)
+    ordreach = set()
+    work = list(ordfn)
+    while work:
+        x = work.pop()
+        if x in ordreach:
+            continue
+        ordreach.add(x)
+        work.extend(rev.get(x, ()))
+    n_sites = 0
+    for p in lib:
+        b = prog.bodies[p]
+        ex = None
+        for bid, t in prog.calls(p):
+            n = Program.callee_name(t)
+            to_ord = n in ordreach
+            ctor = None
+            if not to_ord and p not in nanf:
+                m = re.search(r"^(svgbob::[\w:]+)::new$", n)
+                if m and GEOMETRIC.search(m.group(1)):
+                    ctor = m.group(1)
+            if not (to_ord or ctor) or not t["args"]:
+                continue
+            ex = ex or Expr(prog, p)
+            for a in t["args"]:
+                hit = []
+                try:
+                    mentions(ex.operand(a), lambda z: z[0] == "call" and z[1] in nanf and hit.append(z[1]) and False)
+                except Exception:
+                    continue
+                if hit:
+                    n_sites += 1
+                    src = hit[0]
+                    if to_ord:
+                        run.bad("C01.R5", "nan-reaches-order/%s/%s" % (short(p), short(n)), where(t),
+                                "%s passes a value derived from %s (%s) to %s, from which util::ord is reachable: a NaN coordinate takes the `unreachable!` arm and the conversion panics" % (
+                                    short(p), short(src), nanf[src], short(n)))
+                    else:
+                        run.bad("C01.R5", "nan-stored/%s/%s" % (short(p), short(ctor)), where(t),
+                                "%s stores a value derived from %s (%s) into a %s: every later comparison of that value can reach the NaN arm of util::ord" % (
+                                    short(p), short(src), nanf[src], short(ctor)))
+                    break
+    for p, why in sorted(nanf.items()):
+        run.ok("C01.R5", "%s may return NaN (%s): no use reaches an ordering or a stored coordinate" % (short(p), why), where(prog.bodies[p]))
+    run.record("ord_reaching_functions", len(ordreach))
+
+
 def r2(run, reach):
     prog = run.prog
     E = prog.edges()
@@ -625,4 +777,4 @@ def r3(run, g, gfile):
 
 
 run_flow = run
-FIXTURE_EXPECT = ["undischarged-panic/svgbob::to_svg_string_pretty/unwrap", "unbounded-loop/", "unbounded-iterator/", "recursion-without-variant/"]
+FIXTURE_EXPECT = ["undischarged-panic/svgbob::to_svg_string_pretty/unwrap", "unbounded-loop/", "unbounded-iterator/", "recursion-without-variant/", "nan-reaches-order/"]
